@@ -60,16 +60,29 @@ Proof.
   intro H. apply release_waiter_closed in H. rewrite H. exact E.
 Qed.
 
+Lemma start_tail_closed c s t k s' : start_tail c s t k = Some s' -> closed s' = closed s.
+Proof.
+  unfold start_tail. destruct (connect_must_wait _); [|intros [= <-]; apply proceed_closed].
+  destruct (refuse_wait s); intros [= <-]; reflexivity.
+Qed.
+
+Lemma requeue_closed c s1 t k order s' : requeue c s1 t k order = Some s' -> closed s' = closed s1.
+Proof.
+  unfold requeue. destruct (hand_on c s1 order) as [s2|] eqn:Eh; [|discriminate].
+  destruct (hand_on_frame _ _ _ _ Eh) as (_ & _ & _ & D & _).
+  destruct (refuse_wait s2); intros [= <-]; exact D.
+Qed.
+
 Lemma step_closed c s e s' : step c s e = Some s' -> closed s' = false -> closed s = false.
 Proof.
   intros H Hc. destruct e as [t k|t order|t|t|t order|t cl order|]; cbn [step] in H.
   - destruct (get_pc (pcs s) t); try discriminate.
-    destruct (take_idle k (idle s)); [injection H as <-; rewrite proceed_closed in Hc; exact Hc|].
-    destruct (connect_must_wait _); [|injection H as <-; rewrite proceed_closed in Hc; exact Hc].
-    destruct (refuse_wait s); injection H as <-; exact Hc.
+    destruct (if connect_fast_path (avail c s k) then take_idle k (idle s) else None);
+      [injection H as <-; rewrite proceed_closed in Hc; exact Hc|].
+    rewrite (start_tail_closed _ _ _ _ _ H) in Hc. exact Hc.
   - destruct (get_pc (pcs s) t) as [| k f | | | | |]; try discriminate. destruct f; try discriminate.
     + destruct (wait_slot_found _); [injection H as <-; rewrite proceed_closed in Hc; exact Hc|].
-      destruct (refuse_wait _); injection H as <-; exact Hc.
+      rewrite (requeue_closed _ _ _ _ _ _ H) in Hc. exact Hc.
     + injection H as <-. exact Hc.
     + destruct (release_waiter c _ order) as [s2|] eqn:Er; [|discriminate]. injection H as <-.
       apply release_waiter_closed in Er. cbn [with_pc closed] in Hc. rewrite Er in Hc. exact Hc.
@@ -138,6 +151,29 @@ Proof.
   destruct Ho as [(k' & E)|(k' & cn & E)]; discriminate.
 Qed.
 
+Lemma start_tail_owned c s t k s' :
+  owned c s -> ~ is_owner_pc (get_pc (pcs s) t) -> start_tail c s t k = Some s' -> owned c s'.
+Proof.
+  intros O Hn H. unfold start_tail in H.
+  destruct (connect_must_wait _); [|injection H as <-; apply proceed_owned; assumption].
+  destruct (refuse_wait s); injection H as <-;
+    (eapply (owned_same c s); [reflexivity|reflexivity|reflexivity| |exact O];
+     intros t' Ho; cbn [with_pc with_waiters pcs]; apply not_owner_other; assumption).
+Qed.
+
+Lemma requeue_owned c s1 t k order s' :
+  coh s1 -> owned c s1 -> ~ is_owner_pc (get_pc (pcs s1) t) -> requeue c s1 t k order = Some s' -> owned c s'.
+Proof.
+  intros C1 O Hn H. unfold requeue in H. destruct (hand_on c s1 order) as [s2|] eqn:Eh; [|discriminate].
+  destruct (hand_on_frame _ _ _ _ Eh) as (A & B & _ & D & _). destruct (hand_on_facts _ _ _ _ Eh) as (_ & _ & F3).
+  assert (P : forall t', is_owner_pc (get_pc (pcs s1) t') -> t' <> t /\ get_pc (pcs s2) t' = get_pc (pcs s1) t').
+  { intros t' Ho. split; [intro; subst; contradiction|]. apply F3. apply (owner_pc_no_live s1 t' C1 Ho). }
+  destruct (refuse_wait s2); injection H as <-;
+    (eapply (owned_same c s1); [exact A|exact B|exact D| |exact O];
+     intros t' Ho; destruct (P t' Ho) as (Hne & E); cbn [with_pc with_waiters pcs];
+     rewrite get_set_other by exact Hne; exact E).
+Qed.
+
 Lemma step_owned c s e s' : coh s -> owned c s -> step c s e = Some s' -> owned c s'.
 Proof.
   intros C O H Hc'. pose proof (step_closed _ _ _ _ H Hc') as Hc. revert Hc'.
@@ -146,11 +182,9 @@ Proof.
     destruct (get_pc (pcs s) t) eqn:Ep; try discriminate.
     assert (Hn : ~ is_owner_pc (get_pc (pcs s) t)).
     { rewrite Ep. intros [(k' & E)|(k' & cn & E)]; discriminate. }
-    destruct (take_idle k (idle s)); [injection H as <-; apply proceed_owned; assumption|].
-    destruct (connect_must_wait _); [|injection H as <-; apply proceed_owned; assumption].
-    destruct (refuse_wait s); injection H as <-;
-      (eapply (owned_same c s); [reflexivity|reflexivity|reflexivity| |exact O];
-       intros t' Ho; cbn [with_pc with_waiters pcs]; apply not_owner_other; assumption).
+    destruct (if connect_fast_path (avail c s k) then take_idle k (idle s) else None);
+      [injection H as <-; apply proceed_owned; assumption|].
+    eapply start_tail_owned; eauto.
   - (* EResume *)
     destruct (get_pc (pcs s) t) as [| k f | | | | |] eqn:Ep; try discriminate.
     assert (Hn : ~ is_owner_pc (get_pc (pcs s) t)).
@@ -159,9 +193,11 @@ Proof.
     + set (s1 := with_woken s (filter (fun x => negb (x =? t)) (woken s))) in *.
       assert (O1 : owned c s1) by (eapply (owned_same c s); [reflexivity|reflexivity|reflexivity|intros; reflexivity|exact O]).
       destruct (wait_slot_found _); [injection H as <-; apply proceed_owned; assumption|].
-      destruct (refuse_wait s1); injection H as <-;
-        (eapply (owned_same c s); [reflexivity|reflexivity|reflexivity| |exact O];
-         intros t' Ho; unfold s1; cbn [with_pc with_waiters with_woken pcs]; apply (not_owner_other s); assumption).
+      assert (C1 : coh s1).
+      { destruct C as (A & B & D & E). unfold coh, s1. cbn [with_woken waiters woken pcs]. repeat split; auto.
+        - intros t' Hin. apply filter_In in Hin as [Hin _]. apply D. exact Hin.
+        - apply NoDup_filter. exact E. }
+      eapply (requeue_owned c s1); eauto.
     + injection H as <-. eapply (owned_same c s); [reflexivity|reflexivity|reflexivity| |exact O].
       intros t' Ho. cbn [with_pc with_waiters pcs]. apply not_owner_other; assumption.
     + set (s1 := with_woken s (filter (fun x => negb (x =? t)) (woken s))) in *.
